@@ -104,11 +104,15 @@ func NewPositionRange(lines []string, val *yaml.Node, minColumn int) (offsets Po
 		columnIndex = minColumn
 	}
 
+	var lineBreak bool
 	for lineIndex <= len(lines) {
-		// Append new line but only if we already have any tokens.
-		if len(offsets) > 0 {
+		// Append new line but only if the previous line break is a part of the value.
+		// A line break followed by empty lines is folded into fewer characters
+		// in plain, quoted and folded scalars.
+		if len(offsets) > 0 && lineBreak {
 			offsets = appendPosition(offsets, lineIndex-1, len(lines[lineIndex-2])+1)
 		}
+		lineBreak = false
 
 		if len(lines[lineIndex-1]) == 0 {
 			goto NEXT
@@ -138,6 +142,7 @@ func NewPositionRange(lines []string, val *yaml.Node, minColumn int) (offsets Po
 		columnIndex = minColumn
 
 		if need == ' ' || need == '\n' {
+			lineBreak = true
 			needIndex++
 			if needIndex >= len(val.Value) {
 				goto END
